@@ -65,6 +65,15 @@ func execStep(context *exprContext, expr *grammar.Grammar) error {
 	}
 
 	switch nextBsr.Label.Slot().NT {
+	case symbols.NT_NodeTestAndPredicate, symbols.NT_StepWithAxisAndNodeTestAndPredicate:
+		// The predicates of a step number the nodes selected from each context
+		// node separately, along the direction of the axis.
+		if nodeSet, ok := context.result.(NodeSet); ok && len(nodeSet) > 1 {
+			return execStepForEachNode(context, expr, nodeSet)
+		}
+	}
+
+	switch nextBsr.Label.Slot().NT {
 	case symbols.NT_NodeTest,
 		symbols.NT_NodeTestAndPredicate,
 		symbols.NT_NodeTestNodeTypeNoArgTest,
@@ -91,6 +100,30 @@ func execStep(context *exprContext, expr *grammar.Grammar) error {
 	}
 
 	return execContext(context, expr.Next(nextBsr))
+}
+
+func execStepForEachNode(context *exprContext, expr *grammar.Grammar, nodeSet NodeSet) error {
+	result := make(NodeSet, 0)
+
+	for _, i := range nodeSet {
+		nextContext := context.copy()
+		nextContext.result = NodeSet{i}
+
+		if err := execStep(&nextContext, expr); err != nil {
+			return err
+		}
+
+		selected, ok := nextContext.result.(NodeSet)
+
+		if !ok {
+			return errQueryNonNodeset
+		}
+
+		result = append(result, selected...)
+	}
+
+	context.result = unionCleanup(result)
+	return nil
 }
 
 func execPredicate(context *exprContext, expr *grammar.Grammar) error {
